@@ -133,24 +133,30 @@ def answer (s : vunpackvg.St) : String :=
     model's own primitives), when it is positive and larger than the record: the C code then allocates `nattrs` cells before it runs
     off the record; the translated run would build a list of that size, so it is skipped (the real call was refused in the guard) -/
 def hugeAlloc (b : Bytes) : Bool :=
-  let na : Option Nat := do
-    if b.length < 5 then none
-    let (version, _) ← getU16 (b.drop (b.length - 5))
-    if toI16 version ≠ 4 then none
-    let (n, r) ← getU16 b
-    let (_, r) ← getU16s n r
-    let (_, r) ← getU16s n r
-    let (_, r) ← getStr r
-    let (_, r) ← getStr r
-    let (_, r) ← getU16 r
-    let (_, r) ← getU16 r
-    let (flags, r) ← getU32 r
-    if flags % 2 = 0 then none
-    let (na, _) ← getU32 r
-    some na
-  match na with
-  | some na => na < 2147483648 && na > b.length
+  -- a version-4 record: the C reads flags and (flags odd) nattrs and allocates nattrs cells.  When the walk to `nattrs` leaves the record,
+  -- the C reads them from whatever follows (the guard page in the engine, the sentinel tail in the translated run): an arbitrary count,
+  -- treated like a count larger than the record
+  if b.length < 5 then false else
+  match getU16 (b.drop (b.length - 5)) with
   | none => false
+  | some (version, _) =>
+    if toI16 version ≠ 4 then false else
+    let walk : Option (Option Nat) := do
+      let (n, r) ← getU16 b
+      let (_, r) ← getU16s n r
+      let (_, r) ← getU16s n r
+      let (_, r) ← getStr r
+      let (_, r) ← getStr r
+      let (_, r) ← getU16 r
+      let (_, r) ← getU16 r
+      let (flags, r) ← getU32 r
+      if flags % 2 = 0 then some none else
+      let (na, _) ← getU32 r
+      some (some na)
+    match walk with
+    | none => true
+    | some none => false
+    | some (some na) => na < 2147483648 && na > b.length
 def unpack (b : Bytes) (model : String) : String :=
   if hugeAlloc b then "" else
   let s := run b
